@@ -18,7 +18,7 @@ import vlib
 from vlib import Check, make_cfg, run_tlc, Infra
 
 PROP = "C16"
-REF = {"SuffixRole": "FALSE", "BodyFieldOnly": "FALSE", "PathSplit": "FALSE", "KvOpen": "FALSE",
+REF = {"AdminUnchecked": "FALSE", "SuffixRole": "FALSE", "BodyFieldOnly": "FALSE", "PathSplit": "FALSE", "KvOpen": "FALSE",
        "Unjournaled": "FALSE", "Tids": '{"t1", "t2"}', "MaxOps": 4}
 INV_CASES = ["Inv_Safe", "Inv_Live", "Inv_OnlyAuthentic", "Inv_ReadNeverMutates", "Inv_WriteNeverAdmin", "Inv_NsNeverOther"]
 INV_HIST = ["Inv_RevokedStaysRevoked", "Inv_IssuedKeepsWorking", "Inv_KeyStable"]
@@ -27,7 +27,8 @@ PINNED_WORDS = ["search", "search-with-scores", "get-vectors", "get-links", "get
                 "extract-subgraph", "search-nodes", "get-node-properties", "get-edges", "get-all-relations",
                 "get-all-incoming", "find-path"]
 # the deviations of the pinned tree, one flag each, for the diagnostic TLC runs
-DEVIATIONS = {"SuffixRole": "required role from method + path suffix", "KvOpen": "reserved _sys_auth:: keys served as plain KV",
+DEVIATIONS = {"AdminUnchecked": "HasAccess compares the required role only when it is 'write'",
+              "SuffixRole": "required role from method + path suffix", "KvOpen": "reserved _sys_auth:: keys served as plain KV",
               "BodyFieldOnly": "namespace of a POST body = its index_name field", "PathSplit": "namespace = 4th piece of the decoded path",
               "Unjournaled": "signing key / revocation markers not journaled"}
 
@@ -194,6 +195,13 @@ def run(tier):
         for i, b in enumerate(b2):
             b["id"] = "w%d" % i
         behaviours += b2
+    kinds = {"log_only": 0, "after_snapshot": 0, "after_compaction": 0}
+    for b in behaviours:
+        ops = [s_["op"]["op"] for s_ in b["steps"]]
+        for i, o in enumerate(ops):
+            if o == "Restart":
+                prev = ops[i - 1] if i else ""
+                kinds["after_snapshot" if prev == "Save" else "after_compaction" if prev == "Rewrite" else "log_only"] += 1
     hres = vlib.run_sharded(binary, "hist", profile, behaviours, timeout=1500)
     for e in hres.get("errors", []):
         chk.infra.append("history replay: " + e)
@@ -233,7 +241,7 @@ def run(tier):
                            "served_2xx": res.get("served_2xx", 0), "passed_middleware_non_2xx": res.get("passed_no_2xx", 0),
                            "state_changed": res.get("state_changed", 0), "outcome_open": res.get("outcome_any", 0),
                            "world_rebuilds": res.get("rebuilds", 0), "slow_handlers_skipped": res.get("skipped_slow", 0),
-                           "histories": len(behaviours), "history_probes": hres.get("checks", 0), "restarts": hres.get("restarts", 0),
+                           "histories": len(behaviours), "history_probes": hres.get("checks", 0), "restarts": hres.get("restarts", 0), "restart_kinds": kinds,
                            "sweep_requests": sres.get("requests", 0), "divergences_cases": len(divs),
                            "divergences_hist": len(hres.get("divergences", [])), "divergences_sweep": len(sres.get("divergences", []))}
     chk.cov["routes"] = {"registered": len(inv["registered"]), "mapped_shapes": len(inv["shapes"]), "spec_shapes_without_route": unbound,
